@@ -1,6 +1,7 @@
 package main
 
 import (
+	"strconv"
 	"fmt"
 	"strings"
 	"time"
@@ -62,6 +63,10 @@ func c02(a *vlib.Args) {
 			var depth, ms int
 			fmt.Sscanf(rp.Input, "deep:%d:%d", &depth, &ms)
 			c.deepNesting(depth, ms, 900*time.Second)
+		} else if strings.HasPrefix(rp.Input, "fan:") {
+			parts := strings.Split(rp.Input, ":")
+			depth, _ := strconv.Atoi(parts[2])
+			c.fanOut(parts[1], depth, 60*time.Second)
 		} else {
 			in := vlib.UnHex(rp.Input)
 			c.try(in, "replay")
@@ -87,6 +92,19 @@ func c02(a *vlib.Args) {
 			c.deepNesting(2500000, 0, 600*time.Second)
 		} else {
 			c.deepNesting(400000, 64, 120*time.Second)
+		}
+	}
+	// (f) fan-out: tables whose entries share a nested value, 8 / 12 levels (must return) and 64 / 90 levels (a parser
+	// that multiplies its work per level never returns), in a child process with a time limit (shard 1 only)
+	if a.Shard == 1%a.NShards {
+		for _, kind := range fanKinds {
+			c.fanOut(kind, 8, 60*time.Second)
+			c.fanOut(kind, 12, 60*time.Second)
+			deep := 64
+			if kind == "msg-overlap" {
+				deep = 90 // Fibonacci growth: 1.6^90
+			}
+			c.fanOut(kind, deep, 30*time.Second)
 		}
 	}
 	// order: the cheap explicit families first, the large exhaustive spaces last (a time budget then cuts the tail)
